@@ -146,6 +146,16 @@ func (g *Gauge) WithLabelValues(labelValues ...string) *GaugeHandle {
 		return g.tombstoneHandle()
 	}
 
+	// Reserve the series slot before the handle is published. Publishing
+	// first and rolling back with series.Delete afterwards could remove a
+	// handle another goroutine had already obtained from the map (its
+	// emissions were then silently lost) or a different handle stored under
+	// the same hash in the meantime.
+	if n := g.seriesCount.Add(1); g.opts.MaxSeriesPerMetric > 0 && n > int64(g.opts.MaxSeriesPerMetric) {
+		g.seriesCount.Add(-1)
+		return g.tombstoneHandle()
+	}
+
 	candidate := &GaugeHandle{
 		gauge:       g,
 		labelValues: copyStrings(labelValues),
@@ -154,18 +164,11 @@ func (g *Gauge) WithLabelValues(labelValues ...string) *GaugeHandle {
 
 	actual, loaded := g.series.LoadOrStore(h, candidate)
 	if loaded {
+		g.seriesCount.Add(-1)
 		existing := actual.(*GaugeHandle)
 		if labelValuesEqual(existing.labelValues, labelValues) {
 			return existing
 		}
-		return g.tombstoneHandle()
-	}
-
-	g.seriesCount.Add(1)
-
-	if g.opts.MaxSeriesPerMetric > 0 && g.seriesCount.Load() > int64(g.opts.MaxSeriesPerMetric) {
-		g.series.Delete(h)
-		g.seriesCount.Add(-1)
 		return g.tombstoneHandle()
 	}
 
@@ -220,7 +223,12 @@ func (g *Gauge) UnregisterSeries(labelValues ...string) bool {
 	if !labelValuesEqual(entry.labelValues, labelValues) {
 		return false
 	}
-	g.series.Delete(h)
+	// Only the caller that actually removes this entry may release its
+	// slot: two racing UnregisterSeries calls would otherwise both
+	// decrement seriesCount and let the metric exceed its series cap.
+	if !g.series.CompareAndDelete(h, entry) {
+		return false
+	}
 	g.seriesCount.Add(-1)
 	entry.stale.Store(true)
 	return true
